@@ -5,7 +5,7 @@ module M = struct
 end
 (* ------------------------------------------------------------------ panic *)
 let pst (p : M.pstate) : string =
-  String.concat " " [zs p.M.p_flags; zs p.M.p_daily; zs p.M.p_consec; zs p.M.p_start; zs p.M.p_last_reset]
+  Stdlib.String.concat " " [zs p.M.p_flags; zs p.M.p_daily; zs p.M.p_consec; zs p.M.p_start; zs p.M.p_last_reset]
 
 let suite_panic (line : string) : string =
   let t = toks_of_line line in
@@ -27,7 +27,7 @@ let suite_panic (line : string) : string =
       | _ -> failwith "bad op" in
     out := (r ^ " " ^ pst !p) :: !out
   done;
-  String.concat " | " (Stdlib.List.rev !out)
+  Stdlib.String.concat " | " (Stdlib.List.rev !out)
 
 
 let () = register "panic" suite_panic
